@@ -136,6 +136,18 @@ def _items():
         'pub static mut PT_PARSE_OK: bool = true;\npub static mut PT_PARSE_VAL: Point = Point { x: 0, y: 0 };\npub static mut PT_PARSE_ERR: MyErr = MyErr::Bad;\n'
         'pub static mut PT_CALLS: usize = 0;\npub static mut PT_PTR: usize = 0;\npub static mut PT_LEN: usize = 0;\n'
         'impl ::core::str::FromStr for Point { type Err = MyErr; fn from_str(s: &str) -> Result<Self, MyErr> { unsafe { PT_CALLS += 1; PT_PTR = s.as_ptr() as usize; PT_LEN = s.len(); if PT_PARSE_OK { Ok(PT_PARSE_VAL) } else { Err(PT_PARSE_ERR) } } } }\n')
+    # generic custom functions through a user trait (generic newtypes `struct X<T: Sat>(T)`, instantiated at i32)
+    add('Sat',
+        'pub trait Sat: Sized { fn sat(self) -> Self; fn ok(&self) -> bool; }\n'
+        'impl Sat for i32 { fn sat(self) -> i32 { if self > 50 { 50 } else { self } } fn ok(&self) -> bool { *self != 7 } }\n'
+        'pub fn san_gen<T: Sat>(x: T) -> T { x.sat() }\npub fn pred_gen<T: Sat>(x: &T) -> bool { x.ok() }\n'
+        'pub fn vfn_gen<T: Sat>(x: &T) -> Result<(), MyErr> { if x.ok() { Ok(()) } else { Err(MyErr::Worse) } }\n',
+        '')
+    add('Meters',
+        '#[derive(Debug, Clone, Copy, PartialEq)]\npub struct Meters(pub i32);\n'
+        'impl<\'a> arbitrary::Arbitrary<\'a> for Meters { fn arbitrary(u: &mut arbitrary::Unstructured<\'a>) -> arbitrary::Result<Self> { Ok(Meters(u.arbitrary()?)) } }\n'
+        'pub fn san_m(m: Meters) -> Meters { Meters(if m.0 > 50 { 50 } else { m.0 }) }\n',
+        '')
     # inner type whose Display records the formatter it is handed (C13: Display transparency)
     add('Probe',
         '#[derive(Debug, Clone, Copy, PartialEq)]\npub struct Probe(pub u8);\n'
@@ -196,5 +208,5 @@ def render(names, mode):
         if n not in seen:
             seen.append(n)
     # MyErr first, Point first (types before functions)
-    seen.sort(key=lambda n: (0 if n in ('MyErr', 'Point', 'Probe') else (1 if n == 'PointFromStr' else 2)))
+    seen.sort(key=lambda n: (0 if n in ('MyErr', 'Point', 'Probe', 'Sat', 'Meters') else (1 if n == 'PointFromStr' else 2)))
     return ''.join(ITEMS[n][mode] for n in seen)
